@@ -9,6 +9,20 @@ abbrev G := GateTerm Float
 
 def hexF (s : String) : Option Float := hexToFloat? s
 
+/-! ### user-defined gates of the harness (`Inc2`, `Inc3`, `Inc4`, `Mix a`)
+
+On the Rust side these are structs that only provide `matrix()` (so every `apply*` route is the trait's default).
+Their meaning here is the unitary itself, written as a composite of library gates with the same matrix
+(first operand = most significant bit of `k`):
+* cyclic increment `|k⟩ ↦ |k+1 mod 2^n⟩`: flip bit j when all less significant bits are 1, most significant first;
+* `Mix a = [[1,0,0,0],[0,cos a,-sin a,0],[0,sin a,cos a,0],[0,0,0,1]] = CX(1→0) · C-RY(-2a)(0→1) · CX(1→0)`. -/
+def userInc2 : G := .Composite "Inc2" 2 (.cons .CX [1, 0] (.cons .X [1] .nil))
+def userInc3 : G := .Composite "Inc3" 3 (.cons (.C .CX) [1, 2, 0] (.cons .CX [2, 1] (.cons .X [2] .nil)))
+def userInc4 : G := .Composite "Inc4" 4
+  (.cons (.C (.C .CX)) [1, 2, 3, 0] (.cons (.C .CX) [2, 3, 1] (.cons .CX [3, 2] (.cons .X [3] .nil))))
+def userMix (a : Float) : G :=
+  .Composite "Mix" 2 (.cons .CX [1, 0] (.cons (.C (.RY (-2.0 * a))) [0, 1] (.cons .CX [1, 0] .nil)))
+
 mutual
 partial def parseGate : List String → Option (G × List String)
   | [] => none
@@ -40,6 +54,8 @@ partial def parseGate : List String → Option (G × List String)
     | "CU3" => p3 (fun x y z => .C (.U3 x y z))
     | "CCRX" => p1 (fun x => .C (.C (.RX x))) | "CCRY" => p1 (fun x => .C (.C (.RY x)))
     | "CCRZ" => p1 (fun x => .C (.C (.RZ x)))
+    | "Inc2" => some (userInc2, rest) | "Inc3" => some (userInc3, rest) | "Inc4" => some (userInc4, rest)
+    | "Mix" => p1 userMix
     | "C" => (parseGate rest).map fun (g, r) => (.C g, r)
     | "Kron" => do
         let (g0, r0) ← parseGate rest
